@@ -2,6 +2,8 @@
 mod catalog;
 mod engine;
 mod geo;
+mod gridctx;
+mod gridgen;
 mod projs;
 mod props;
 mod util;
